@@ -19,6 +19,7 @@ class Oracles:
     def __init__(self) -> None:
         self.ops_seen: Set[str] = set()
         self.flushes_active = 0
+        self.forget_epoch = 0
         self.probe_mode = False
         self.scan_all_tasks = False
 
@@ -452,6 +453,7 @@ class Oracles:
         if incb:
             w.label("flush:overlaps-callback")
         failed_before = [t for t in must if t.finished() and not t.atask.cancelled() and t.atask.exception() is not None]
+        epoch = self.forget_epoch
         self.flushes_active += 1
         if self.flushes_active >= 2:
             w.label("flush:overlapping-flushes")
@@ -472,6 +474,9 @@ class Oracles:
             self.flushes_active -= 1
         if w.teardown:
             return
+        if self.forget_epoch != epoch:
+            failed_before = []      # another flush / close finished meanwhile and may have taken the failed task away first
+        self.forget_epoch += 1
         w.ev(f"flush returned raised={raised!r}")
         suspended = w.opno > start_op + 1
         if suspended:
@@ -574,6 +579,7 @@ class Oracles:
             raised = e
         if w.teardown:
             return
+        self.forget_epoch += 1
         w.ev(f"gather_and_close returned raised={raised!r}")
         if raised is not None:
             w.label("close:raised")
